@@ -14,6 +14,9 @@
 -/
 import ClairModel.Proofs.Manager
 
+-- every variable of a property statement is bound explicitly: a misspelt name is an error, not a new variable
+set_option autoImplicit false
+
 namespace ClairModel.Props.C13
 open ClairModel ClairModel.Manager
 
